@@ -1,4 +1,5 @@
 # adapted from https://github.com/ptrblck/pytorch_misc/blob/master/shared_dict.py
+from copy import deepcopy
 from multiprocessing import Manager
 
 from .cached_dataset import CachedDataset
@@ -21,7 +22,9 @@ class SharedDictDataset(CachedDataset):
                 # dispose was called (by another process) between the membership test and the read -> load again
                 sample = self.dataset[idx]
                 self.shared_dict[idx] = sample
-        return sample
+        # tensors are sent to the manager via shared memory, i.e. the cached tensor shares its storage with the one
+        # handed out -> return a copy such that in-place transforms don't modify the cached sample
+        return deepcopy(sample)
 
     def dispose(self):
         self.shared_dict.clear()
